@@ -108,9 +108,6 @@ def build_batch(ctx, seeds, quick):
             meta = dict(grammar=gsrc, text=tsrc, start=start, args=argsrc, features=sorted(features),
                         nontrivial=("capture-then-fail" in features), model=res[0])
             for variant, obj in (("src", gid + "-src"), ("cmp", gid + "-peg"), ("rt", gid + "-rt")):
-                if variant == "rt" and any(k.startswith("readint") for k in features):
-                    # known separate defect class: (int n)/(uint-be n) PEGs do not survive marshalling (C09's subject)
-                    continue
                 cid = "%s_%s" % (base, variant)
                 lines.append("(when %s (show \"%s\" (fn [] (peg/match %s %s %d %s))))" % (obj, cid, obj, tsrc, start, argsrc))
                 exp[cid] = (e, dict(meta, variant=variant))
